@@ -598,3 +598,61 @@ func runWake(r *common.Run, byClose bool) {
 	r.Line(line, obs)
 	r.Case(line+"wake", true, "wake")
 }
+
+// runStale: a wake-up signal left over from data that was read without waiting
+// must not make a later Read return before new data (or the close) arrives.
+func runStale(r *common.Run) {
+	p, err := newPeer()
+	if err != nil {
+		return
+	}
+	defer p.stop()
+	ln := p.h.Listen(p.rs.S)
+	acc := make(chan net.Conn, 1)
+	go func() { c, _ := ln.Accept(); acc <- c }()
+	p.feed(fmt.Sprintf(`<iq xmlns="jabber:client" type="set" id="o1" from="%s" to="me@example.net/h"><open xmlns="http://jabber.org/protocol/ibb" sid="S" block-size="4" stanza="iq"/></iq>`, peerJID))
+	var conn net.Conn
+	select {
+	case conn = <-acc:
+	case <-time.After(watchdog):
+		return
+	}
+	p.pump(func() bool { return p.replies["o1"] != "" })
+	data := func(id string, seq int, pl string) {
+		p.feed(fmt.Sprintf(`<iq xmlns="jabber:client" type="set" id="%s" from="%s"><data xmlns="http://jabber.org/protocol/ibb" seq="%d" sid="S">%s</data></iq>`, id, peerJID, seq, pl))
+		p.pump(func() bool { return p.replies[id] != "" })
+	}
+	line := "recv 0 d:1:0:" + common.HexS("QUJD") + ",r:8,d:1:1:" + common.HexS("REVG") + ",r:8"
+	lines := []string{r.Prop + " " + line, "#the second Read starts before the second packet is sent and must wait for it"}
+	data("d1", 0, "QUJD")
+	b := make([]byte, 8)
+	k, _ := conn.Read(b)
+	first := append([]byte(nil), b[:k]...)
+	type res struct {
+		b   []byte
+		err error
+	}
+	ch := make(chan res, 1)
+	go func() {
+		b := make([]byte, 8)
+		k, err := conn.Read(b)
+		ch <- res{b[:k], err}
+	}()
+	obs := "ack,D" + common.Hex(first) + ","
+	select {
+	case x := <-ch:
+		obs += "ack,EARLY"
+		r.Fail("deliver", "read-returns-without-data-on-open-stream", lines, fmt.Sprintf("Read returned (%x, %v) although the buffer is empty and the stream is open", x.b, x.err))
+	case <-time.After(20 * time.Millisecond):
+		data("d2", 1, "REVG")
+		select {
+		case x := <-ch:
+			obs += replyCode[p.replies["d2"]] + ",D" + common.Hex(x.b)
+		case <-time.After(watchdog):
+			obs += "ack,BLOCK"
+			r.Fail("deliver", "reader-lost-wake-up", lines, "Read does not return after the packet it waited for")
+		}
+	}
+	r.Line(line, obs)
+	r.Case(line+"stale", true, "wake")
+}
